@@ -33,8 +33,16 @@ class EditableModule(object):
             try:
                 set_attr(self, name, val)
             except TypeError as e:  # failed because val should be param
-                del_attr(self, name)
-                set_attr(self, name, val)
+                # a tensor for a registered torch.nn.Parameter is put into the
+                # parameter's slot, so that the order of the module's parameters
+                # is the same after the parameter is put back
+                parentname, _, pname = name.rpartition(".")
+                parent = get_attr(self, parentname) if parentname else self
+                if isinstance(parent, torch.nn.Module) and pname in parent._parameters:
+                    parent._parameters[pname] = val
+                else:
+                    del_attr(self, name)
+                    set_attr(self, name, val)
 
         return len(params)
 
